@@ -3,7 +3,7 @@ from __future__ import annotations
 
 from hypothesis import strategies as st
 
-from harness import brokerops, vclock
+from harness import brokerops, names, vclock
 from harness.core import Check, Outcome, SubCheck
 
 
@@ -16,6 +16,8 @@ def fifo_case(draw, broker):
     # other priority levels in the same queue: first-in first-out is demanded inside each level, whatever the others hold
     mixed = draw(st.integers(0, 2)) == 0
     big_bodies = draw(st.integers(0, 3)) == 0
+    # a message's own timestamp says when its job object was made, not when it was enqueued: first-in first-out is about the latter
+    aged = draw(st.integers(0, 2)) == 0
     others = [p for p in (0, 5, 9) if p != prio]
 
     def enq(n):
@@ -24,7 +26,8 @@ def fifo_case(draw, broker):
             pr = draw(st.sampled_from([prio, prio] + others)) if mixed else prio
             # a few messages carry a large body (70-200 KB): size must not change their place in the order
             big = "B" * draw(st.sampled_from([70_000, 200_000])) if big_bodies and draw(st.integers(0, 4)) == 0 else ""
-            ops.append({"op": "enq", "q": "qf", "topic": t, "prio": pr, "delay": None, "payload": big, "client": "p0"})
+            ops.append({"op": "enq", "q": "qf", "topic": t, "prio": pr, "delay": None, "payload": big, "client": "p0",
+                        "age": draw(st.sampled_from([0.0, 0.0, 0.25, 2.0, 45.0])) if aged else 0.0})
 
     start = {"op": "start", "q": "qf", "client": "c0", "topics": ["t0"] if foreign or draw(st.booleans()) else None,
              "category": "NORMAL", "max_unacked": draw(st.sampled_from([None, 1, 3]))}
@@ -125,6 +128,12 @@ def fifo_case(draw, broker):
             else:
                 ops.append({"op": "ack", "c": 0, "i": 0})
     case = {"broker": broker, "seed": draw(st.integers(0, 2**16)), "ops": ops, "mode": mode}
+    if draw(st.integers(0, 3)) == 0:
+        names.rename_history(case, draw(st.sampled_from(names.STYLES)))  # legal but unusual queue / topic / message names
+    if draw(st.integers(0, 5)) == 0:
+        case["log"] = "DEBUG"  # host application logging at DEBUG: the library's log lines are all formatted
+    if draw(st.integers(0, 5)) == 0:
+        case["tz"] = draw(st.sampled_from(vclock.zones(3)))
     if broker != "mem":
         case["lat"] = {"p0": draw(st.lists(st.sampled_from([0.0, 0.001, 0.002]), max_size=15)) if mode == "racing" else [],
                        "c0": draw(st.lists(st.sampled_from([0.0, 0.001, 0.003]), max_size=15))}
@@ -161,7 +170,8 @@ def run(case: dict) -> Outcome:
         elif k in ("reject", "requeue") and e.get("done") and "id" in e:
             stream.append(("return", e["id"], e))
     seq = [(kind, e["id"] if kind == "enq" else id_) for kind, id_, e in stream]
-    matching = {m.id for m in w.msgs.values() if m.topic == "t0"}
+    own = names.renamed(case, "t", "t0")
+    matching = {m.id for m in w.msgs.values() if m.topic == own}
     levels: dict[int, list[str]] = {}  # per priority: matching messages currently in the queue, in the order FIFO must serve them
     fresh: set[str] = set()  # never returned
     n_match = 0
@@ -204,16 +214,16 @@ def run(case: dict) -> Outcome:
         timeouts = sum(1 for e in w.events if e["op"]["op"] == "consume" and e.get("timeout"))
         if timeouts >= 2:
             start = next(o for o in case["ops"] if o["op"] == "start")
-            first_un = min(int(i[1:]) for i in undelivered)
+            first_un = min(w.msgs[i].seq0 for i in undelivered)
             low_un = min(w.msgs[i].prio for i in undelivered)
             # a foreign-topic message is served before it: enqueued earlier, or sitting in a higher priority level
-            foreign_ahead = any(m.topic != "t0" and (int(m.id[1:]) < first_un or m.prio > low_un) for m in w.msgs.values())
+            foreign_ahead = any(m.topic != own and (m.seq0 < first_un or m.prio > low_un) for m in w.msgs.values())
             out.v("starved", f"{len(undelivered)} matching message(s) never delivered although the consumer kept consuming "
                   f"({drained} deliveries, {timeouts} empty polls): {undelivered[:5]}", broker=case["broker"],
                   foreign_head_of_line=bool(foreign_ahead and start.get("max_unacked") is not None))
     out.nontrivial = n_match >= 3
     out.cls("broker-" + case["broker"], "mode-" + case["mode"], "more-than-10" if n_match > 10 else "up-to-10",
-            "foreign-topics" if any(m.topic != "t0" for m in w.msgs.values()) else "no-foreign",
+            "foreign-topics" if any(m.topic != names.renamed(case, "t", "t0") for m in w.msgs.values()) else "no-foreign",
             "several-priorities" if len(levels) > 1 else "one-priority")
     return out
 
